@@ -120,6 +120,11 @@ def fresh_seq(interp, elem_t, name):
                 comps.append(lambda k, fs=fs: NTuple("Pos", ("n", "x", "y"), [f(z3k(k)) for f in fs]))
                 if j == 0:
                     first_fn = fs[0]
+            elif pt == "bool":
+                f = z3.Function("%s.%d" % (base, j), z3.IntSort(), z3.BoolSort())
+                comps.append(lambda k, f=f: f(z3k(k)))
+            elif pt == "none":
+                comps.append(lambda k: None)
             else:
                 raise OutOfSubset("sequence tuple component type %r" % pt)
         s = SymSeq(length, lambda k, comps=comps: tuple(c(k) for c in comps), name)
